@@ -30,8 +30,13 @@ RULE = ("all ordered pairs of the boundary corpus (ints 0, +-1, 2, -7, 2^63-1, 2
         "each of the 3 unary operators, plus seeded random triples ($a OP $b) OP2 $c over scalars incl. seeded random "
         "ints/floats/strings; the pair grid is run in THREE configurations (default engine+context; engine option "
         "yaql.iterableDicts; legacy factory + legacy context - the two latter over an 18-value corpus in the quick tier); "
-        "operands bound as variables; non-trivial = a payload ran or an operand is null/boolean; distinct = distinct "
-        "(configuration, operators, operands)")
+        "operands bound as variables AND, as a second delivery route, spelled as LITERALS in the expression text (20 "
+        "spellable values incl. true/false/null, negative numbers, -0.0, big ints, strings; both operands, or one of "
+        "them), and chains of unary operators (- -, -+, +-, ---, not -, - not, ...) over a variable and over a literal; "
+        "string/sequence repetition additionally on engines WITH yaql.memoryQuota in {200, 1000, 5000, 20000} and "
+        "yaql.limitIterators, counts swept around the true threshold getsizeof(result) = quota from both sides; "
+        "non-trivial = a payload ran or an operand is null/boolean; distinct = distinct "
+        "(configuration, route, operators, operands)")
 TRUSTED = ["Model/Scalars.v payload semantics are a hand transcription of math.py/strings.py/common.py/boolean.py and the "
            "repetition/membership overloads of collections.py; tied by this correspondence",
            "harness/gen_scalarops.py: acceptance rows come from the live value_type.check on representatives of each kind "
@@ -43,6 +48,9 @@ TRUSTED = ["Model/Scalars.v payload semantics are a hand transcription of math.p
 ASSUMPTIONS = ["operands reach the operators as variables of a child context; engine/context are one of the three configurations "
                "default, {'yaql.iterableDicts': True}, legacy factory + legacy context (no memory quota; other engine options "
                "do not reach value_type.check of the operator overloads)",
+               "quota engines: strings are ASCII (the implementation's estimate is exact for them; for non-ASCII strings and for "
+               "negative counts it over-estimates - observed, outside the sweep); a sequence result between 85% and 100% of the "
+               "quota, or above 1000 items, may be returned or refused (output conversion copies it; yaql.limitIterators)",
                "sequences in the corpus hold integers only; repetition results of more than 10^5 items (below the 2^62 count at which Python fails at once) are not generated",
                "NaN is excluded from the order-consistency statements (C15_order_consistent_num premises; O corpus has no NaN)",
                "float laws of C15_order_consistent_num (three-way comparison antisymmetric, undefined exactly on NaN) are "
